@@ -30,6 +30,13 @@ func init() {
 	extend("C19", bigKinds("C19", []string{"shift"}, []bigCfg{{70, 3, false}, {300, 2, false}, {1100, 1, true}}, false))
 	extend("C01", gapC01)
 	extend("C01", gap6C01)
+	extend("C01", gap7CSVReceiver)
+	extend("C10", gap7CSVReceiver)
+	extend("C04", gap7C04)
+	extend("C08", gap7MixedCase("C08"))
+	extend("C09", gap7MixedCase("C09"))
+	extend("C17seq", gap7MixedCase("C17"))
+	extend("C20", gap7C20)
 	extend("C02", gap6C02)
 	extend("C03", gap6C03)
 	extend("C04", gap6C04)
@@ -890,6 +897,97 @@ func gap6C20(g *Gen, tier string, res *GenOutput) {
 				{K: "iofail", F: 0}, {K: "iofail", F: 0, ViaFile: true}, {K: "string", F: 0}}
 			res.Hists = append(res.Hists, RunHist("sort-mixed-time-column", []Frame{f}, ops))
 			bump(res.Stats, "sort-mixed-time-column")
+		}
+	}
+}
+
+// ---- streams added after the seventh round of seeded changes (options, order, surface) ----
+
+// C01 / C10: the method form df.FromCSV(file) on a receiver that already holds data: the receiver stays as it
+// was and the result is a new frame
+func gap7CSVReceiver(g *Gen, tier string, res *GenOutput) {
+	for _, in := range []string{"id,city\n1,Oslo\n2,Rome\n", "name\nx\n", "id,name,extra\n7,a,1\n8,b,2\n9,c,3\n10,d,4\n11,e,5\n", "a,b\n1\n"} {
+		f := mkFrame(intCol("id", 1, 2, 3, 4), strCol("name", "n1", "n2", "n3", "n4"))
+		ops := []Op{{K: "fromcsv", F: 0, Bytes: BStr(in), ViaFile: true, Alt: true}, {K: "nrows", F: 0}, {K: "row", F: 0, N: 3}, {K: "fromcsv", F: 0, Bytes: BStr(in), ViaFile: true, Alt: true},
+			{K: "fromcsv", F: 1, Bytes: BStr("z\n1\n"), ViaFile: true, Alt: true}, {K: "columnnames", F: 0}}
+		res.Hists = append(res.Hists, RunHist("fromcsv-on-a-loaded-receiver", []Frame{f}, ops))
+		bump(res.Stats, "fromcsv-on-a-loaded-receiver")
+	}
+}
+
+// C04: key lists that name a column more than once
+func gap7C04(g *Gen, tier string, res *GenOutput) {
+	f := mkFrame(strCol("region", "EU", "EU", "US", "EU", "US"), strCol("dept", "IT", "HR", "IT", "IT", "HR"), intCol("score", 1, 2, 3, 4, 5), intCol("v0", 10, 20, 30, 40, 50))
+	for _, ks := range [][]BStr{{"region", "region", "dept"}, {"dept", "dept", "region", "score"}, {"region", "dept", "region"}, {"dept", "dept"}, {"region", "region", "region", "dept"}} {
+		ops := []Op{{K: "groupby", F: 0, GList: true, Strs: ks}, {K: "groupagg", F: 0, GList: true, Strs: ks, Agg: "sum", Cols: []BStr{"v0"}}, {K: "groupagg", F: 0, GList: true, Strs: ks, Agg: "count", Cols: []BStr{"v0"}}}
+		res.Hists = append(res.Hists, RunHist("repeated-key-column", []Frame{f}, ops))
+		bump(res.Stats, "repeated-key-column")
+	}
+}
+
+// column names in mixed case: the library's column order is byte order ("B" < "a"), everywhere
+func gap7MixedCase(prop string) func(g *Gen, tier string, res *GenOutput) {
+	return func(g *Gen, tier string, res *GenOutput) {
+		sets := [][]string{{"Name", "age"}, {"ID", "Score", "city"}, {"B", "a"}, {"k", "K"}, {"b", "A", "a", "B"}}
+		one, zero := []int64{1}, []int64{0}
+		for _, names := range sets {
+			cols := []Col{}
+			for j, nm := range names {
+				c := Col{Key: BStr(nm), Name: BStr(nm), Data: []Cell{}}
+				for i := 0; i < 3; i++ {
+					if j%2 == 0 {
+						c.Data = append(c.Data, StrCell(fmt.Sprintf("%s%d", nm, i)))
+					} else {
+						c.Data = append(c.Data, IntCell("int", int64(10*j+i)))
+					}
+				}
+				cols = append(cols, c)
+			}
+			f := mkFrame(cols...)
+			var ops []Op
+			switch prop {
+			case "C09":
+				ops = []Op{{K: "tocsv", F: 0}, {K: "csvroundtrip", F: 0}, {K: "csvroundtrip", F: 0, ViaFile: true}}
+			case "C17":
+				ops = []Op{{K: "apply", F: 0, Fn: 0, Axis: &one}, {K: "apply", F: 0, Fn: 1, Axis: &one}, {K: "apply", F: 0, Fn: 14, Axis: &one}, {K: "apply", F: 0, Fn: 0, Axis: &zero}}
+			default:
+				ops = []Op{{K: "columnnames", F: 0}, {K: "row", F: 0, N: 1}, {K: "iloc", F: 0, Ints: []int64{0, 2}, Ints2: []int64{0, 1}}, {K: "string", F: 0}, {K: "multiselect", F: 0, Strs: []BStr{BStr(names[len(names)-1]), BStr(names[0])}}}
+			}
+			res.Hists = append(res.Hists, RunHist("mixed-case-names", []Frame{f}, ops))
+			bump(res.Stats, "mixed-case-names")
+		}
+		if prop == "C17" {
+			// a function that returns nil for some rows and a slice for the others, under every completion order the
+			// scheduler plan forces elsewhere; here: rows in which the first cell is nil
+			for i := 0; i < scale(tier, 8, 40); i++ {
+				a := Col{Key: "a", Name: "a", Data: []Cell{}}
+				b := Col{Key: "b", Name: "b", Data: []Cell{}}
+				n := 2 + g.r.Intn(6)
+				for r := 0; r < n; r++ {
+					if g.chance(0.4) {
+						a.Data = append(a.Data, NilCell())
+					} else {
+						a.Data = append(a.Data, IntCell("int", int64(r)))
+					}
+					b.Data = append(b.Data, IntCell("int", int64(10+r)))
+				}
+				ops := []Op{{K: "apply", F: 0, Fn: 14, Axis: &one}, {K: "apply", F: 0, Fn: 14, Axis: &zero}, {K: "apply", F: 0, Fn: 14}}
+				res.Hists = append(res.Hists, RunHist("mixed-result-shapes", []Frame{mkFrame(a, b)}, ops))
+				bump(res.Stats, "mixed-result-shapes")
+			}
+		}
+	}
+}
+
+// C20: SortValues given several direction flags (only the first one counts), fewer or more than sort columns
+func gap7C20(g *Gen, tier string, res *GenOutput) {
+	f := mkFrame(strCol("team", "x", "y", "x", "y", "x"), intCol("grade", 1, 1, 1, 2, 1), intCol("score", 2, 5, 9, 1, 4))
+	tr, fl := true, false
+	for _, by := range [][]BStr{{"team"}, {"team", "grade"}, {"team", "grade", "score"}, {}} {
+		for _, extra := range [][]bool{{false}, {true, false}, {false, false, false, true}} {
+			ops := []Op{{K: "sort", F: 0, Strs: by, Asc: &tr, Keep: extra}, {K: "sort", F: 0, Strs: by, Asc: &fl, Keep: extra}}
+			res.Hists = append(res.Hists, RunHist("several-direction-flags", []Frame{f}, ops))
+			bump(res.Stats, "several-direction-flags")
 		}
 	}
 }
